@@ -29,6 +29,11 @@ SKELETONS = [
   ("two-sets", [], ["body", "", [["div", "", [["p", "b", [S("A", "ac ac=green")]]]]]]),
   ("two-regions", [["r1", "b"], ["r2", "e"]], ["body", "", [["div", "", [["p", "r=r1 b", [S("A", "")]], ["p", "r=r2 e", [S("B", "")]]]]]]),
   ("set-on-body", [], ["body", "b ac", [["div", "", [["p", "e", [S("A", "")]]]]]]),
+  ("unbounded-then-bounded", [], ["body", "", [["div", "", [["p", "b", [S("A", "")]], ["p", "b e", [S("B", "")]]]]]]),
+  ("bounded-then-unbounded", [], ["body", "", [["div", "", [["p", "b e", [S("A", "")]], ["p", "b", [S("B", "")]]]]]]),
+  ("timed-region-when-active", [["r1", "b e sb=whenActive"]], ["body", "", [["div", "r=r1", [["p", "b e", [S("A", "")]]]]]]),
+  ("timed-region-transparent", [["r1", "b e bg=transparent"], ["r2", "e op=0"]],
+   ["body", "", [["div", "r=r1", [["p", "b", [S("A", "")]]]], ["div", "r=r2", [["p", "", [S("B", "")]]]]]]),
 ]
 
 
